@@ -66,7 +66,7 @@ ASSUMPTIONS = [
 ]
 REQUIRED_LABELS = {"all": ["backend:gaussian", "backend:bosonic", "backend:fock", "target_not_first", "fock_pure", "fock_mixed",
                            "kind:gate", "kind:channel", "kind:prep", "kind:measure", "kind:del", "measure_sampled", "non_involutive_target_order",
-                           "ps_register_gap", "fock_register_gap", "fock_four_modes", "ps_measure_sampled", "op:Gaussian", "ps_threshold",
+                           "ps_register_gap", "ps_all_existing_modes_measured", "fock_register_gap", "fock_four_modes", "ps_measure_sampled", "op:Gaussian", "ps_threshold",
                            "fock_homodyne"]}
 
 
@@ -139,7 +139,11 @@ def ps_case(draw):
     # register with a gap: one or two modes (entangled with the rest by the prior) are deleted BEFORE the operation
     # under test; the operation is generated on the nl remaining modes and mapped to their register indices
     pre = []
-    if n >= 3 and draw(st.integers(0, 3)) == 0:
+    if kind == "measure" and draw(st.integers(0, 5)) == 0:
+        # every mode but one deleted: the measurement then acts on ALL existing modes of a register that still has (empty) slots
+        # (seeded change C05-F: the bosonic backend decided "are there other modes to update" by counting slots in one place and modes in another)
+        pre = sorted(draw(st.permutations(list(range(n))))[:n - 1])
+    elif n >= 3 and draw(st.integers(0, 3)) == 0:
         pre = sorted(draw(st.permutations(list(range(n))))[:draw(st.integers(1, n - 2))])
     alive = [m for m in range(n) if m not in pre]
     nl = len(alive)
@@ -241,6 +245,8 @@ def check_ps(ctx, case):
         labels.append("spectator_between_targets")
     if pre:
         labels.append("ps_register_gap")
+        if not spect:
+            labels.append("ps_all_existing_modes_measured")
         if min(pre) < max(op[2]):
             labels.append("ps_target_after_gap")
     if op[0] == "Gaussian" and len(targets) >= 2:
